@@ -98,7 +98,8 @@ Value& OpMODExpression::value(Context& ctx) const
         Integer l = *a2.integer();
         if (l == 0)
           throw RuntimeError(EXC_RT_DIVIDE_BY_ZERO);
-        Value val(Integer(*a1.integer() % l));
+        /* INT64_MIN % -1 overflows (traps): any integer modulo -1 is 0 */
+        Value val(l == -1 ? Integer(0) : Integer(*a1.integer() % l));
         return LVAL2(val, a1, a2);
       }
       default:
